@@ -4,15 +4,18 @@
 set -u
 PATCH="$(readlink -f "$1")"; shift
 TIER="${SEED_TIER:-quick}"
-cd /repo || exit 2
-if ! git -C /repo diff --quiet; then echo "refusing: /repo has uncommitted changes"; exit 2; fi
-git -C /repo apply "$PATCH" || { echo "patch does not apply"; exit 2; }
-trap 'git -C /repo checkout -- . ' EXIT
-export VERIF_OUT=/tmp/seedtry
+# SEED_REPO / SEED_VERIF: run in a "lab" (tools/lab.sh: a worktree of /repo plus a copy of /verif whose harness points at it) so that
+# seeded changes can be tried while /repo itself stays untouched and usable
+REPO="${SEED_REPO:-/repo}"; VERIF="${SEED_VERIF:-/verif}"
+cd "$REPO" || exit 2
+if ! git -C "$REPO" diff --quiet; then echo "refusing: $REPO has uncommitted changes"; exit 2; fi
+git -C "$REPO" apply "$PATCH" || { echo "patch does not apply"; exit 2; }
+trap 'git -C "$REPO" checkout -- . ' EXIT
+export VERIF_OUT="${SEED_OUT:-/tmp/seedtry}"
 mkdir -p $VERIF_OUT
 for id in "$@"; do
     start=$(date +%s)
-    out=$(cd /verif && ./check "$id" "$TIER" 2>&1)
+    out=$(cd "$VERIF" && ./check "$id" "$TIER" 2>&1)
     rc=$?
     nv=$(echo "$out" | grep -c "^VIOLATION")
     first=$(echo "$out" | grep -A1 "^VIOLATION" | sed -n 2p | cut -c1-220)
